@@ -49,6 +49,11 @@
 (*   SeekFirst = FALSE      calls do not fp.seek(cur) first: SameResult /  *)
 (*                  Isolation violated through the shared file position    *)
 (*                  by interleaving two members.                           *)
+(*                                                                         *)
+(* This module is about ONE archive whose file does not change.  What      *)
+(* happens when the process opens several archives under the same path     *)
+(* name (file rewritten / renamed into place, earlier members left         *)
+(* unclosed) is the companion module ArMemberProc.tla.                     *)
 (***************************************************************************)
 EXTENDS ArMemberRef
 
